@@ -94,6 +94,8 @@ class Builder:
             return getattr(self.term(t[1]), t[2])(*[self.inst.v(a) for a in t[3]])
         if k == "l":
             return self.inst.v(t[1])
+        if k == "ob":           # ("ob", domkey, index): an object of the world used as a constant
+            return self.world[t[1]][t[2]]
         if k == "ck":
             return getattr(self.term(t[1]), t[2])(*[self.inst.v(a) for a in t[3]], **{n: self.inst.v(a) for n, a in t[4]})
         if k in ("fl", "cc"):
@@ -227,6 +229,8 @@ class Ref:
             return getattr(self.value(t[1], env), t[2])(*[self.inst.v(a) for a in t[3]])
         if k == "l":
             return self.inst.v(t[1])
+        if k == "ob":
+            return self.world[t[1]][t[2]]
         if k == "ck":
             return getattr(self.value(t[1], env), t[2])(*[self.inst.v(a) for a in t[3]],
                                                         **{n: self.inst.v(a) for n, a in t[4]})
@@ -361,6 +365,8 @@ def up_term(t, inst):
         return f"{up_term(t[1], inst)}.{t[2]}({', '.join(repr(inst.v(a)) for a in t[3])})"
     if k == "l":
         return repr(inst.v(t[1]))
+    if k == "ob":
+        return f"{t[1]}[{t[2]}]"
     if k == "ck":
         args = [repr(inst.v(a)) for a in t[3]] + [f"{n}={inst.v(a)!r}" for n, a in t[4]]
         return f"{up_term(t[1], inst)}.{t[2]}({', '.join(args)})"
